@@ -10,7 +10,7 @@
    What a model of immutable values cannot express (the caller's slices are left unmodified; genuinely repeated calls in one
    process; state kept between calls) is validated at run time by the entries of DC16.v, whose checker is proved sound below. *)
 From Coq Require Import ZArith String List Bool Permutation.
-From SID Require Import Base Str Ids Wire ZoomCore ChangeZoom Merge MergeProof Neighbour Notation SetOps Overlap QuadkeyConv Corridor
+From SID Require Import Base Str Ids Wire ZoomCore ChangeZoom Merge MergeProof MergeApi Neighbour Notation SetOps Overlap QuadkeyConv Line Corridor
   Determinism DeterminismMore DC16.
 Import ListNotations.
 Open Scope Z_scope.
@@ -49,7 +49,7 @@ Theorem C16_entries_repeated_in_place :
   forall (I O : Type) (eqb : O -> O -> bool), (forall a b, reflect (a = b) (eqb a b)) -> forall (g : I -> list O) ord ord',
   (forall l, Permutation (ord l) l) -> (forall l, Permutation (ord' l) l) ->
   (forall l, Permutation (F eqb g ord (stutter l)) (F eqb g ord' l)) /\
-  (forall l1 l2 a k, Permutation (F eqb g ord (l1 ++ repeat a (S k) ++ l2)) (F eqb g ord' (l1 ++ a :: l2))).
+  (forall l1 l2 a k, Permutation (F eqb g ord (l1 ++ repeat a (Datatypes.S k) ++ l2)) (F eqb g ord' (l1 ++ a :: l2))).
 Proof. intros I O eqb S g ord ord' P P'. split; [exact (F_repeated_in_place eqb S g ord ord' P P')|exact (F_one_entry_repeated eqb S g ord ord' P P')]. Qed.
 Print Assumptions C16_entries_repeated_in_place.
 
@@ -83,7 +83,7 @@ Print Assumptions C16_ChangeExtendedSpatialIdsZoom_on_valid_ids.
 Theorem C16_ChangeSpatialIdsZoom_on_valid_ids :
   forall ids ids' z, (forall i, In i ids -> valid i /\ ev i = eh i) -> 0 <= z <= 35 -> same_members ids ids' ->
   exists r r', change_sid_api (map ChangeZoom.print_sid ids) z = Ok r /\ change_sid_api (map ChangeZoom.print_sid ids') z = Ok r' /\
-               Permutation r r'.
+               Permutation r r' /\ NoDup r.
 Proof. exact change_sid_api_deterministic. Qed.
 Print Assumptions C16_ChangeSpatialIdsZoom_on_valid_ids.
 
@@ -98,6 +98,19 @@ Theorem C16_merge_no_duplicates :
   forall ord, (forall l, Permutation (ord l) l) -> forall H V l, NoDup (merge ord H V l).
 Proof. exact merge_no_duplicates. Qed.
 Print Assumptions C16_merge_no_duplicates.
+
+(* the exported functions on printed valid IDs; fits64: the threshold 4^dh*2^dv of the call stays below 2^63 (2*dh + dv <= 62), which
+   the documented memory bound of the function implies by far *)
+Theorem C16_MergeExtendedSpatialIds_on_valid_ids :
+  forall l l' H V, 0 <= H <= 35 -> 0 <= V <= 35 -> (forall i, In i l -> valid i) -> fits64 H V l -> fits64 H V l' -> same_members l l' ->
+  exists r r', merge_ext_api (map print_eid l) H V = Ok r /\ merge_ext_api (map print_eid l') H V = Ok r' /\ Permutation r r' /\ NoDup r.
+Proof. exact merge_ext_api_deterministic. Qed.
+Print Assumptions C16_MergeExtendedSpatialIds_on_valid_ids.
+Theorem C16_MergeSpatialIds_on_valid_ids :
+  forall l l' z, 0 <= z <= 35 -> (forall i, In i l -> valid i /\ ev i = eh i) -> fits64 z z l -> fits64 z z l' -> same_members l l' ->
+  exists r r', merge_sid_api (map MergeApi.print_sid l) z = Ok r /\ merge_sid_api (map MergeApi.print_sid l') z = Ok r' /\ Permutation r r' /\ NoDup r.
+Proof. exact merge_sid_api_deterministic. Qed.
+Print Assumptions C16_MergeSpatialIds_on_valid_ids.
 
 (* ---- 4. N-layer neighbourhoods, for arbitrary strings: both calls fail, or both succeed with the same duplicate-free set ---- *)
 Theorem C16_neighbourhoods :
@@ -158,23 +171,69 @@ Theorem C16_key_conversion_pairs :
 Proof. intros pss pss' E. split; [exact (run_deterministic pss pss' E)|exact (proj1 (run_pairs pss))]. Qed.
 Print Assumptions C16_key_conversion_pairs.
 
-(* ---- 9. corridor (after fix 70c64b2; D15 was the refutation before it): any map orders, any arrival order of the line's IDs ---- *)
+(* the same about the IDs of a call: `conv` is the common body of ConvertExtendedSpatialIDsToQuadkeysAndVerticalIDs (e2q) and
+   ...AndAltitudekeys (e2qa); which pairs one ID yields is QuadkeyConv.id_pairs.  Two ID lists with the same members, both calls
+   successful: the pairs of all returned groups, flattened, are permutations of one duplicate-free list. *)
+Theorem C16_key_conversion_of_ids :
+  forall (P : Type) (oh ov : Z) (par : P) (vert : Z -> Z -> result (list Z)) (ids ids' : list string) (gs gs' : list (group P)),
+  same_members ids ids' -> conv oh ov par vert ids = Ok gs -> conv oh ov par vert ids' = Ok gs' ->
+  Permutation (List.concat (map g_pairs gs)) (List.concat (map g_pairs gs')) /\ NoDup (List.concat (map g_pairs gs)).
+Proof. exact @conv_pairs_deterministic. Qed.
+Print Assumptions C16_key_conversion_of_ids.
+
+(* ---- 9. corridor, on the model of Corridor.v (after the fixes 70c64b2 and 915e48e).  The model threads the search state of the one
+   closest.Measure through the candidates in sorted order (`St`, `measure : St -> id -> result (bool * St)`), so nothing is assumed about
+   the purity of a measurement.  Any three map orders, any arrival order of the line's IDs: both runs fail, or both succeed with
+   permutations of one duplicate-free list.  fit and measure are the model's oracles for the third-party geometry (C14). ---- *)
 Theorem C16_corridor :
-  forall on ou oq on' ou' oq',
+  forall on ou oq on' ou' oq' fit (St : Type) (st0 : St) measure L L' skip,
   (forall l, Permutation (on l) l) -> (forall l, Permutation (ou l) l) -> (forall l, Permutation (oq l) l) ->
   (forall l, Permutation (on' l) l) -> (forall l, Permutation (ou' l) l) -> (forall l, Permutation (oq' l) l) ->
-  forall fit measure L L' skip r r', Permutation L L' ->
-  corridor on ou oq fit measure (Ok L) skip = Ok r -> corridor on' ou' oq' fit measure (Ok L') skip = Ok r' ->
-  Permutation r r' /\ NoDup r.
+  Permutation L L' ->
+  match corridor on ou oq fit St st0 measure (Ok L) skip, corridor on' ou' oq' fit St st0 measure (Ok L') skip with
+  | Ok r, Ok r' => Permutation r r' /\ NoDup r
+  | Err, Err => True
+  | _, _ => False
+  end.
 Proof. exact corridor_deterministic. Qed.
 Print Assumptions C16_corridor.
 
+(* ---- 9b. line, on the model of Line.v (any voxel-of-point oracles): the recursion is fixed by the two points; the final Unique only
+   permutes a duplicate-free list ---- *)
+Theorem C16_line :
+  forall (P : Type) vox_top vox_in mid small (ord ord' : list eid -> list eid) fuel (s e : P) l,
+  (forall x, Permutation (ord x) x) -> (forall x, Permutation (ord' x) x) ->
+  Line.line_ids P vox_top vox_in mid small fuel s e = Some l -> Permutation (ord l) (ord' l) /\ NoDup (ord l).
+Proof. exact line_deterministic. Qed.
+Print Assumptions C16_line.
+
+(* ---- 9c. (quadkey, vertical index) -> IDs, on the model of QuadkeyConv.v: any lists of items with the same members ---- *)
+Theorem C16_ConvertQuadkeysAndVerticalIDsToExtendedSpatialIDs :
+  forall (ord ord' : list string -> list string) items items' oh ov,
+  (forall x, Permutation (ord x) x) -> (forall x, Permutation (ord' x) x) -> same_members items items' ->
+  match q2e items oh ov, q2e items' oh ov with
+  | Ok a, Ok a' => Permutation (ord a) (ord' a') /\ NoDup (ord a)
+  | Err, Err => True
+  | _, _ => False
+  end.
+Proof. exact q2e_deterministic. Qed.
+Print Assumptions C16_ConvertQuadkeysAndVerticalIDsToExtendedSpatialIDs.
+Theorem C16_ConvertQuadkeysAndVerticalIDsToSpatialIDs :
+  forall items items' z, same_members items items' ->
+  match q2s items z, q2s items' z with
+  | Ok a, Ok a' => same_members a a'
+  | Err, Err => True
+  | _, _ => False
+  end.
+Proof. exact q2s_deterministic. Qed.
+Print Assumptions C16_ConvertQuadkeysAndVerticalIDsToSpatialIDs.
+
 (* ---- 10. the run-time checker: an accepted observation [unmodified; repeats; permuted; duplicated] means what the property says ---- *)
 Theorem C16_checker_sound :
-  forall nodup obs, check_det nodup obs = true ->
-  exists un reps perms dups r p d, obs = VL [VB un; VL reps; VL perms; VL dups] /\
+  forall nodup need obs, check_det nodup need obs = true ->
+  exists un reps perms dups dp dd r p d, obs = VL [VB un; VL reps; VL perms; VL dups; VZ dp; VZ dd] /\
     decode_all reps = Some r /\ decode_all perms = Some p /\ decode_all dups = Some d /\
-    exists r0 rs, r = r0 :: rs /\ un = true /\
+    exists r0 rs, r = r0 :: rs /\ un = true /\ rs <> [] /\ (need = true -> p <> [] /\ d <> []) /\
       (forall x, In x rs -> res_equal_bags r0 x) /\
       (forall x, In x (p ++ d) -> res_equal_sets r0 x) /\
       (nodup = true -> forall x, In x (r ++ p ++ d) -> res_NoDup x).
@@ -200,8 +259,9 @@ Example C16_nonvacuous_merge :
 Proof. split; vm_compute; reflexivity. Qed.
 (* the checker accepts consistent runs and rejects each kind of violation *)
 Example C16_checker_examples :
-  check_runs true true [ROk ["a"; "b"] ["a"; "b"]; ROk ["b"; "a"] ["b"; "a"]] [ROk ["b"; "a"] ["b"; "a"]] [ROk ["a"; "b"] ["a"; "b"]] = true /\
-  check_runs false true [ROk ["a"; "b"] ["a"; "b"]] [ROk ["a"] ["a"]] [] = false /\
-  check_runs true true [ROk ["a"; "a"] ["a"; "a"]] [] [] = false /\
-  check_runs false false [ROk ["a"] ["a"]] [] [] = false.
+  check_runs true true true [ROk ["a"; "b"] ["a"; "b"]; ROk ["b"; "a"] ["b"; "a"]] [ROk ["b"; "a"] ["b"; "a"]] [ROk ["a"; "b"] ["a"; "b"]] = true /\
+  check_runs false false true [ROk ["a"; "b"] ["a"; "b"]; ROk ["a"; "b"] ["a"; "b"]] [ROk ["a"] ["a"]] [] = false /\
+  check_runs true false true [ROk ["a"; "a"] ["a"; "a"]; ROk ["a"; "a"] ["a"; "a"]] [] [] = false /\
+  check_runs false true true [ROk ["a"] ["a"]; ROk ["a"] ["a"]] [] [] = false /\
+  check_runs false false false [ROk ["a"] ["a"]; ROk ["a"] ["a"]] [] [] = false.
 Proof. repeat split; vm_compute; reflexivity. Qed.
